@@ -11,8 +11,8 @@
 (* Vocabulary (shared with the Go harness):                                *)
 (*   keys    1..NK in byte order; 0 = the empty string "" (Go's            *)
 (*           string(nil)): it is both "nil bound" and the spurious key     *)
-(*   values  0 = nil / absent, 1 = EMPTY = the empty NON-nil byte string,  *)
-(*           2..NV ordinary values                                         *)
+(*   values  0 = nil / absent, -1 = EMPTY = the empty NON-nil byte string, *)
+(*           1, 2, ... ordinary values                                     *)
 (*   results flat integer sequences: Get -> <<v>>, Has -> <<0|1>>,         *)
 (*           iteration -> <<k1,v1,k2,v2,...>> and a trailing PANIC if the  *)
 (*           iterator panicked                                             *)
@@ -24,11 +24,11 @@
 (***************************************************************************)
 EXTENDS Integers, Sequences, FiniteSets
 
-CONSTANTS NK, NV
+CONSTANTS NK
 
 Key   == 1..NK
 NIL   == 0
-EMPTY == 1
+EMPTY == -1
 EKEY  == 0
 PANIC == -9
 NOH   == -1                       \* height of an unused slot (NewStoreAtHeight)
